@@ -70,6 +70,7 @@ class Check(AddCheck):
         yield from gens.merge_cases_story(n_max=n_max, max_src=2 if tier == 'quick' else 3, layouts=['plain', 'between'])
         yield from gens.merge_cases_item(n_max=n_max, max_src=2 if tier == 'quick' else 3, para_layouts=['none', 'between'])
         yield from gens.merge_cases_padded()
+        yield from gens.merge_cases_special_ids()
         for ro, doc, meta in kth_bad_cases():
             yield {'ro': ro, 'msg': to_text(doc), 'meta': meta}
         n_hist = 100 if tier == 'quick' else 1000
@@ -129,8 +130,13 @@ class Check(AddCheck):
 
     def violation(self, case, io, claim, before):
         if 'classerr' in io or io.get('err') not in (None,):
-            if io.get('err') and io['err'] != 'MosMergeError' and io['err'] != 'MosCompletedMergeError':
-                return None     # a built-in exception is C12's business
+            if io.get('err') and io['err'] not in ('MosMergeError', 'MosCompletedMergeError') and \
+                    io.get('cls') in ('StoryDelete', 'EAStoryDelete', 'ItemDelete', 'EAItemDelete'):
+                # a delete of a schema-shaped message either raises MosMergeError or warns per missing element:
+                # a built-in exception is neither (also C12's business; decided here only inside the guards)
+                fl, = engine.schema_flags([case])
+                if fl and fl['wf'] and fl['schema'] and fl['timing']:
+                    return '%s: a named element is reported neither by MosMergeError nor by a warning: %s escaped' % (io['cls'], io['err'])
             return None
         cls = io['cls']
         msg = X.elem_to_tree(impl.parse_doc(case['msg']))
